@@ -395,6 +395,15 @@ func RunCase(line string) (impl, fail, sig string, err error) {
 				return "", "", "", err
 			}
 			return runKeep(flags, mfs, gd, gl), "", "", nil
+		case "shape":
+			if len(items) != 2 {
+				return "", "", "", errors.New("shape case: want 2 items")
+			}
+			c, err := ParseCase([]vlib.Sx{items[1], vlib.Atom("nil"), vlib.List{}, vlib.List{}})
+			if err != nil {
+				return "", "", "", err
+			}
+			return shapeImpl(c), "", "", nil
 		case "!read":
 			if len(items) != 6 {
 				return "", "", "", errors.New("!read case: want 6 items")
